@@ -263,7 +263,19 @@ SOLVER_ASSUME = ["numeric 1 um / 1 urad judgements are computed by the harness' 
 def c01(ctx):
     # the pipeline of inverse_continuing over abstract candidates: every path keeps the contract
     tlc(ctx, "SolverImpl", workers=8, xmx="12g")
-    expect_rejected(ctx, "SolverImpl", "SolverImplLeak", "SolverImpl!ShiftedLeak is reachable (answers taken over from a shifted pose)")
+    if not ctx.quick:
+        # (non-vacuity of the model itself: depends on the specification only)
+        expect_rejected(ctx, "SolverImpl", "SolverImplLeak", "SolverImpl!ShiftedLeak is reachable (answers taken over from a shifted pose)")
+    # B1: exact singular / boundary lattice poses (quarter turns and one generic angle per joint): soundness of whatever is returned
+    consts = {"PSets": "{1, 2, 3}", "Angles": "{0, 3, 6, 1}"} if ctx.quick else {"PSets": "{1, 2, 3, 4, 5}", "Angles": "{0, 3, 6, 9, 1}"}
+    g = tlc(ctx, "Gen_Chain", constants=consts, workers=8, xmx="12g")
+    lines = tlc_json_lines(g["out"], "chain")
+    write_ndjson(ctx.path("chain.ndjson"), lines)
+    opwv(ctx, ["replay", "chainedge", ctx.path("chain.ndjson"), ctx.path("chainedge.out")])
+    st = replay_results(ctx, ctx.path("chainedge.out"), "C01")
+    ctx.evaluations += st.get("evaluations", 0)
+    ctx.traces += st.get("nontrivial", 0)
+    ctx.extra["singular_lattice_calls_answered"] = st.get("nontrivial", 0)
     ev, viols = solver_trace(ctx, "", 3 if ctx.quick else 10)
     solver_report(ctx, ev, viols, "C01")
     return finish(ctx, rule=SOLVER_RULE, assumptions=SOLVER_ASSUME)
